@@ -27,6 +27,7 @@ TraceP      == Hdr.P
 TraceHosted == {Hdr.hosted[i] : i \in 1..Len(Hdr.hosted)}
 TraceKeys   == 1..Len(Hdr.part)
 TraceVals   == 0..99
+TraceNs     == [k \in 1..Len(Hdr.part) |-> Hdr.ns[k]]
 
 tvars == <<part, store, ref, reply, refReply, touched, l, bad>>
 
